@@ -185,7 +185,12 @@ type segMeta struct {
 func findSegMetaFromTime(a *asset, rep *RepData, time uint64, cfg *ResponseConfig, nowMS int) (segMeta, error) {
 	mediaRef := cfg.StartTimeS * rep.MediaTimescale // TODO. Add period + PTO
 	wrapDur := a.LoopDurMS * rep.MediaTimescale / 1000
-	nrWraps := int(time) / wrapDur
+	// The loop starts at the first decode time of the VoD representation, which need not be 0
+	firstTime := int(rep.Segments[0].StartTime)
+	if int(time) < firstTime {
+		return segMeta{}, fmt.Errorf("no matching segment")
+	}
+	nrWraps := (int(time) - firstTime) / wrapDur
 	wrapTime := nrWraps * wrapDur
 	timeAfterWrap := int(time) - wrapTime
 	idx := rep.findSegmentIndexFromTime(uint64(timeAfterWrap))
